@@ -38,6 +38,9 @@ Pool == {
   [extend |-> [precedence |-> "override", units |-> [min |-> [names |-> <<"minuto">>], h |-> [ratio |-> 3601]]]],
   [extend |-> [units |-> [kg |-> [aliases |-> <<"kilo">>]]]],                                                                \* alias on an SI-expanded unit
   [extend |-> [units |-> [kg |-> [ratio |-> 2]]]],                                                                           \* edits an expanded unit
+  [extend |-> [units |-> [lb |-> [ratio |-> 10]]]],                                                                          \* a best unit changes its place in the list
+  [extend |-> [units |-> [lb |-> [aliases |-> <<"libra">>]]]],                                                               \* a key that only the extend adds ...
+  [quantity |-> << [quantity |-> "mass", best |-> [metric |-> <<"g", "kg">>, imperial |-> <<"oz", "libra">>]] >>],           \* ... named by a best list
   [extend |-> [units |-> [zzz |-> [aliases |-> <<"x">>]]]],                                                                  \* unknown unit
   [extend |-> [units |-> [g |-> [aliases |-> <<"x1">>], gram |-> [aliases |-> <<"x2">>]]]],                                  \* two keys, one unit
   [extend |-> [units |-> [l |-> [symbols |-> <<"lt">>], cup |-> [aliases |-> <<"tsp">>]]]],                                  \* alias collides with another unit
